@@ -17,6 +17,7 @@ def dispatch (j : Json) : Except String Json := do
   | "filter" => handleFilter op j
   | "table" => handleTable op j
   | "ini" => handleIni op j
+  | "interp" => handleInterp op j
   | _ => throw s!"unknown model {m}"
 
 def step (line : String) : String :=
